@@ -406,15 +406,11 @@ func (r *pqRun) checkAll(m *pqModel, rng *rand.Rand) {
 		if v, ok := r.query("MinRow(field=s)"); ok {
 			if p, _ := v.(pilosa.Pair); p.ID != sRows[0] || p.Count == 0 {
 				r.fail([]string{"C16"}, "minrow", fmt.Sprintf("MinRow(field=s) = %+v, model row %d", v, sRows[0]))
-			} else if int(p.Count) != len(sortedCols(m.s[sRows[0]])) {
-				r.fail([]string{"C17"}, "minrow-count", fmt.Sprintf("MinRow(field=s) = %+v: row %d holds %d columns over all shards", v, sRows[0], len(sortedCols(m.s[sRows[0]]))))
 			}
 		}
 		if v, ok := r.query("MaxRow(field=s)"); ok {
 			if p, _ := v.(pilosa.Pair); p.ID != sRows[len(sRows)-1] || p.Count == 0 {
 				r.fail([]string{"C16"}, "maxrow", fmt.Sprintf("MaxRow(field=s) = %+v, model row %d", v, sRows[len(sRows)-1]))
-			} else if int(p.Count) != len(sortedCols(m.s[sRows[len(sRows)-1]])) {
-				r.fail([]string{"C17"}, "maxrow-count", fmt.Sprintf("MaxRow(field=s) = %+v: row %d holds %d columns over all shards", v, sRows[len(sRows)-1], len(sortedCols(m.s[sRows[len(sRows)-1]]))))
 			}
 		}
 	}
@@ -505,11 +501,39 @@ func (r *pqRun) checkAll(m *pqModel, rng *rand.Rand) {
 			r.fail([]string{"C16", "C17"}, "groupby-child-column", fmt.Sprintf("GroupBy(Rows(s, column=%d), Rows(m)) = %v, model %v", c, got, want))
 		}
 	}
-	if len(sRows) > 1 {
-		prev := sRows[0]
-		want := groupsWhere(func(a uint64) bool { return a > prev })
-		if got, ok := getGroups(fmt.Sprintf("GroupBy(Rows(s, previous=%d), Rows(m))", prev)); ok && !(len(got) == 0 && len(want) == 0) && !reflect.DeepEqual(got, want) {
-			r.fail([]string{"C16"}, "groupby-child-previous", fmt.Sprintf("GroupBy(Rows(s, previous=%d), Rows(m)) = %v, model %v", prev, got, want))
+	// (previous= on only some children has no stated meaning; it is checked below, on
+	// every child, as a paging device)
+	// MinRow / MaxRow with a filter: the smallest / largest row meeting the filter,
+	// with the number of its columns inside the filter summed over all shards (C17).
+	for _, fr := range sRows {
+		lo, hi, nlo, nhi, any := uint64(0), uint64(0), 0, 0, false
+		for _, row := range sRows {
+			k := 0
+			for c, ok := range m.s[row] {
+				if ok && m.s[fr][c] {
+					k++
+				}
+			}
+			if k == 0 {
+				continue
+			}
+			if !any {
+				lo, nlo, any = row, k, true
+			}
+			hi, nhi = row, k
+		}
+		if !any {
+			continue
+		}
+		if v, ok := r.query(fmt.Sprintf("MinRow(Row(s=%d), field=s)", fr)); ok {
+			if p, _ := v.(pilosa.Pair); p.ID != lo || int(p.Count) != nlo {
+				r.fail([]string{"C16", "C17"}, "minrow-filter", fmt.Sprintf("MinRow(Row(s=%d), field=s) = %+v, model row %d count %d", fr, v, lo, nlo))
+			}
+		}
+		if v, ok := r.query(fmt.Sprintf("MaxRow(Row(s=%d), field=s)", fr)); ok {
+			if p, _ := v.(pilosa.Pair); p.ID != hi || int(p.Count) != nhi {
+				r.fail([]string{"C16", "C17"}, "maxrow-filter", fmt.Sprintf("MaxRow(Row(s=%d), field=s) = %+v, model row %d count %d", fr, v, hi, nhi))
+			}
 		}
 	}
 	if len(sRows) > 0 {
@@ -528,6 +552,79 @@ func (r *pqRun) checkAll(m *pqModel, rng *rand.Rand) {
 		}
 		if got, ok := getGroups(fmt.Sprintf("GroupBy(Rows(s), Rows(m), filter=Row(s=%d))", fr)); ok && !(len(got) == 0 && len(want) == 0) && !reflect.DeepEqual(got, want) {
 			r.fail([]string{"C16"}, "groupby-filter", fmt.Sprintf("GroupBy(Rows(s), Rows(m), filter=Row(s=%d)) = %v, model %v", fr, got, want))
+		}
+	}
+	// GroupBy over three fields, paged with previous= on every child (the group the
+	// previous page ended with) and limit: the pages concatenate to the unpaged result.
+	if !r.noStd {
+		type g3 struct{ a, b, c uint64 }
+		cnt3 := map[g3]uint64{}
+		for a, cs := range m.s {
+			for col, ok := range cs {
+				if !ok || !m.mHas[col] {
+					continue
+				}
+				for c, tc := range m.tStd {
+					if tc[col] {
+						cnt3[g3{a, m.m[col], c}]++
+					}
+				}
+			}
+		}
+		var keys3 []g3
+		for k := range cnt3 {
+			keys3 = append(keys3, k)
+		}
+		sort.Slice(keys3, func(i, j int) bool {
+			x, y := keys3[i], keys3[j]
+			if x.a != y.a {
+				return x.a < y.a
+			}
+			if x.b != y.b {
+				return x.b < y.b
+			}
+			return x.c < y.c
+		})
+		want3 := []string{}
+		for _, k := range keys3 {
+			want3 = append(want3, fmt.Sprintf("%d/%d/%d=%d", k.a, k.b, k.c, cnt3[k]))
+		}
+		get3 := func(q string) ([]string, []g3, bool) {
+			v, ok := r.query(q)
+			if !ok {
+				return nil, nil, false
+			}
+			gs, isG := v.([]pilosa.GroupCount)
+			if !isG {
+				return nil, nil, false
+			}
+			out, ks := []string{}, []g3{}
+			for _, g := range gs {
+				if len(g.Group) == 3 {
+					out = append(out, fmt.Sprintf("%d/%d/%d=%d", g.Group[0].RowID, g.Group[1].RowID, g.Group[2].RowID, g.Count))
+					ks = append(ks, g3{g.Group[0].RowID, g.Group[1].RowID, g.Group[2].RowID})
+				}
+			}
+			return out, ks, true
+		}
+		if got, _, ok := get3("GroupBy(Rows(s), Rows(m), Rows(t))"); ok && !(len(got) == 0 && len(want3) == 0) && !reflect.DeepEqual(got, want3) {
+			r.fail([]string{"C16"}, "groupby3", fmt.Sprintf("GroupBy(Rows(s),Rows(m),Rows(t)) = %v, model %v", got, want3))
+		}
+		for _, lim := range []int{1, 2} {
+			var all []string
+			q := fmt.Sprintf("GroupBy(Rows(s), Rows(m), Rows(t), limit=%d)", lim)
+			for i := 0; i < 60; i++ {
+				page, ks, ok := get3(q)
+				if !ok || len(page) == 0 {
+					break
+				}
+				all = append(all, page...)
+				last := ks[len(ks)-1]
+				q = fmt.Sprintf("GroupBy(Rows(s, previous=%d), Rows(m, previous=%d), Rows(t, previous=%d), limit=%d)", last.a, last.b, last.c, lim)
+			}
+			if !(len(all) == 0 && len(want3) == 0) && !reflect.DeepEqual(all, want3) {
+				r.fail([]string{"C16"}, "groupby3-previous-paging", fmt.Sprintf("GroupBy over 3 fields paged by %d with previous= concatenates to %v, unpaged model %v", lim, all, want3))
+			}
 		}
 	}
 	// ---- TopN with explicit ids (C12) ----
@@ -578,9 +675,35 @@ func (r *pqRun) checkAll(m *pqModel, rng *rand.Rand) {
 
 func (r *pqRun) round(rng *rand.Rand, writes int) {
 	m := newPqModel()
-	// fresh fields for every round
-	for _, q := range []string{} {
-		_ = q
+	// Every second round with a standard time view starts from dense data: every
+	// column carries a set row or two, a mutex row and a time row, so that GroupBy
+	// over two and three fields has many groups spread unevenly over the shards.
+	if !r.noStd && rng.Intn(2) == 0 {
+		for _, c := range pqCols {
+			for k := 0; k < 1+rng.Intn(2); k++ {
+				row := pqRows[rng.Intn(len(pqRows))]
+				r.write(fmt.Sprintf("Set(%d, s=%d)", c, row))
+				if m.s[row] == nil {
+					m.s[row] = map[uint64]bool{}
+				}
+				m.s[row][c] = true
+			}
+			mr := pqRows[rng.Intn(len(pqRows))]
+			r.write(fmt.Sprintf("Set(%d, m=%d)", c, mr))
+			m.m[c], m.mHas[c] = mr, true
+			tr := pqRows[rng.Intn(3)]
+			ts := pqTimes[rng.Intn(len(pqTimes))]
+			r.write(fmt.Sprintf("Set(%d, t=%d, %s)", c, tr, pqTS(ts)))
+			if m.t[tr] == nil {
+				m.t[tr] = map[uint64]map[time.Time]bool{}
+				m.tStd[tr] = map[uint64]bool{}
+			}
+			if m.t[tr][c] == nil {
+				m.t[tr][c] = map[time.Time]bool{}
+			}
+			m.t[tr][c][ts] = true
+			m.tStd[tr][c] = true
+		}
 	}
 	for w := 0; w < writes; w++ {
 		c := pqCols[rng.Intn(len(pqCols))]
